@@ -234,6 +234,20 @@ theorem lastLeft_cases (f : File) (steps : List Step) :
     · exact ⟨s, by simp, by simpa [lastLeft] using h⟩
     · exact ⟨s', by simp [hs'], by simpa [lastLeft] using h⟩
 
+/-- the last state is the initial file when nothing was run, otherwise what the *last* executed step left -/
+theorem lastLeft_getLast (f : File) (steps : List Step) :
+    (steps = [] ∧ lastLeft f steps = f) ∨ ∃ s, steps.getLast? = some s ∧ lastLeft f steps = s.left := by
+  induction steps generalizing f with
+  | nil => exact Or.inl ⟨rfl, rfl⟩
+  | cons s rest ih =>
+    right
+    rcases ih s.left with ⟨h0, h⟩ | ⟨s', hs', h⟩
+    · subst h0; exact ⟨s, by simp, by simp [lastLeft]⟩
+    · refine ⟨s', ?_, by simpa [lastLeft] using h⟩
+      cases rest with
+      | nil => simp at hs'
+      | cons a rest' => simpa [List.getLast?_cons_cons] using hs'
+
 theorem fetch_of_verify_ok (t : Target) (n : Nat) (f : File) (outs : List Outcome) (h : verify t f = .ok) :
     (fetch t n f outs).result = .returned := by
   cases n <;> simp [fetch, h, V.toResult]
